@@ -5,6 +5,7 @@ import (
 	"go/constant"
 	"go/token"
 	"go/types"
+	"strings"
 )
 
 const (
@@ -283,6 +284,82 @@ func c05(c *Ctx) {
 		}
 		c.Check(found != "" && bad == "" && onlyKey, "R3", "attribute|NewSetWithFiltered|stable sort by Key only", at(ax.M, fn.Pos()), found,
 			"the sort is not stable (or compares more than the key): among duplicate keys the surviving value is no longer the one supplied last ("+bad+")")
+	}
+
+	// no unstable sort anywhere in the set code: after the initial stable sort every later step (the filter partition, Filter's
+	// rotation) has to keep the kept attributes in key order, because computeDistinct takes its input as sorted — an unstable
+	// sort by "dropped or kept" permutes keys on ranges longer than a dozen elements
+	{
+		unstableAny := map[string]bool{"slices.SortFunc": true, "sort.Sort": true, "sort.Slice": true, "slices.Sort": true}
+		var bad []string
+		for _, f := range sortedFuncs(ax.Funcs) {
+			inspectNoLit(f.Body(), func(n ast.Node) bool {
+				call, ok := n.(*ast.CallExpr)
+				if !ok || len(call.Args) == 0 {
+					return true
+				}
+				cf := callee(ainfo, call)
+				if cf == nil || cf.Pkg() == nil || !unstableAny[cf.Pkg().Name()+"."+cf.Name()] {
+					return true
+				}
+				// on a slice of KeyValue
+				if sl, isSl := ainfo.TypeOf(call.Args[0]).Underlying().(*types.Slice); isSl {
+					if nn := namedOf(sl.Elem()); nn != nil && nn.Obj().Name() == "KeyValue" {
+						bad = append(bad, cf.Pkg().Name()+"."+cf.Name()+" in "+f.Name+" at "+ax.M.posStr(call.Pos()))
+					}
+				}
+				return true
+			})
+		}
+		c.Check(len(bad) == 0, "R3", "attribute|package|no unstable sort on attribute slices", at(ax.M, ax.Pkg.Syntax[0].Pos()), "only stable sorts", "an unstable sort is applied to attributes ("+joinStr(bad)+"): the order of keys that compare equal under its comparator is not preserved — kept attributes leave key order, the set's identity no longer matches its contents")
+	}
+
+	// merging: exhaustion of a set is a state of the iterator, not a property of the attribute it looks at — sets may hold
+	// attributes with an empty key or an INVALID value, and those are merged like any other
+	{
+		var bad []string
+		for _, f := range sortedFuncs(ax.Funcs) {
+			if !strings.Contains(f.Name, "MergeIterator") && !strings.Contains(f.Name, "oneIterator") {
+				continue
+			}
+			inspectNoLit(f.Body(), func(n ast.Node) bool {
+				if call, ok := n.(*ast.CallExpr); ok && isCallTo(ainfo, call, "(go.opentelemetry.io/otel/attribute.KeyValue).Valid", "(go.opentelemetry.io/otel/attribute.Key).Defined") {
+					bad = append(bad, exprStr(call)+" in "+f.Name)
+				}
+				return true
+			})
+		}
+		// … and in methods of any other type of the package that NewMergeIterator's look-ahead is built from
+		for _, f := range sortedFuncs(ax.Funcs) {
+			if f.Recv() == nil {
+				continue
+			}
+			if nn := namedOf(f.Recv().Type()); nn != nil && nn.Obj().Name() != "MergeIterator" && nn.Obj().Name() != "oneIterator" {
+				if st, isS := nn.Underlying().(*types.Struct); isS && st.NumFields() >= 2 {
+					hasIter, hasKV := false, false
+					for i := 0; i < st.NumFields(); i++ {
+						if tn := namedOf(st.Field(i).Type()); tn != nil {
+							if tn.Obj().Name() == "Iterator" {
+								hasIter = true
+							}
+							if tn.Obj().Name() == "KeyValue" {
+								hasKV = true
+							}
+						}
+					}
+					if hasIter && hasKV {
+						inspectNoLit(f.Body(), func(n ast.Node) bool {
+							if call, ok := n.(*ast.CallExpr); ok && isCallTo(ainfo, call, "(go.opentelemetry.io/otel/attribute.KeyValue).Valid", "(go.opentelemetry.io/otel/attribute.Key).Defined") {
+								bad = append(bad, exprStr(call)+" in "+f.Name)
+							}
+							return true
+						})
+					}
+				}
+			}
+		}
+		c.Check(len(bad) == 0, "R3", "attribute|MergeIterator|exhaustion is iterator state, not attribute validity", at(ax.M, ax.Pkg.Syntax[0].Pos()), "no validity test in the merge",
+			"the merge consults the validity of the attribute it looks at ("+joinStr(bad)+"): an attribute with an empty key (which sorts first) or an INVALID value makes its whole set look exhausted and is dropped from the merge")
 	}
 
 	c.Rule("R4", "E2 table", "computeDistinctFixed: every `case n` returns an array of exactly n elements; other lengths fall to the reflect path", 10)
